@@ -21,6 +21,62 @@ use slotted_egraphs::*;
 #[cfg(feature = "explanations")]
 use std::collections::HashMap;
 
+
+/// histories of the proof suite: the operations of the `eg` suites plus one application of a rewrite rule
+#[derive(Clone, Debug)]
+pub enum XOp {
+    Base(Op),
+    Rw(usize),
+}
+
+/// substitution-free rules over the main language (name, left, right); the name is the justification of their leaves
+pub const XRULES: [(&str, &str, &str); 8] = [
+    ("r-add-comm", "(add ?a ?b)", "(add ?b ?a)"),
+    ("r-mul-comm", "(mul ?a ?b)", "(mul ?b ?a)"),
+    ("r-k-swap", "(k ?a ?b)", "(k ?b ?a)"),
+    ("r-h-k", "(h ?a)", "(k ?a ?a)"),
+    ("r-lam-h", "(lam $x ?b)", "(lam $x (h ?b))"),
+    ("r-sum-swap", "(sum $x (sum $y ?a))", "(sum $y (sum $x ?a))"),
+    ("r-f2-swap", "(f2 $x $y)", "(f2 $y $x)"),
+    ("r-add-assoc", "(add (add ?a ?b) ?c)", "(add ?a (add ?b ?c))"),
+];
+
+pub fn enc_xops(ops: &[XOp]) -> String {
+    ops.iter()
+        .map(|o| match o {
+            XOp::Base(b) => enc_ops(std::slice::from_ref(b)),
+            XOp::Rw(i) => format!("R{i}"),
+        })
+        .collect::<Vec<_>>()
+        .join(";")
+}
+
+pub fn parse_xops(body: &str) -> Vec<XOp> {
+    body.split(';')
+        .filter(|x| !x.is_empty())
+        .map(|x| {
+            if let Some(i) = x.strip_prefix('R') {
+                XOp::Rw(i.parse().unwrap_or(0))
+            } else {
+                XOp::Base(parse_ops(x).into_iter().next().unwrap_or(Op::Query))
+            }
+        })
+        .collect()
+}
+
+/// a pattern as a term whose pattern variables are leaves of the reserved variant 999
+#[cfg(feature = "explanations")]
+fn pat_to_aterm(p: &Pattern<Main>) -> ATerm {
+    match p {
+        Pattern::PVar(v) => ATerm { v: 999, fields: vec![CField::Lit(v.clone())], children: vec![] },
+        Pattern::ENode(n, cs) => {
+            let shell = from_recexpr::<Main>(&RecExpr { node: n.clone(), children: vec![] });
+            ATerm { v: shell.v, fields: shell.fields, children: cs.iter().map(pat_to_aterm).collect() }
+        }
+        Pattern::Subst(..) => panic!("substitution patterns are not used in the proof suite"),
+    }
+}
+
 #[cfg(feature = "explanations")]
 struct Export {
     nodes: Vec<String>,
@@ -84,17 +140,36 @@ pub struct ExplOut {
     pub expected: String,
     pub max_nodes: usize,
     pub tags: Vec<String>,
+    pub rules: Vec<String>,
 }
 
 /// runs the history with justified unions, then explains every equal pair (at most `max_pairs`)
 #[cfg(feature = "explanations")]
-pub fn run_expl<L: HLang>(ops: &[Op], max_pairs: usize, printers: bool) -> Result<ExplOut, String> {
+pub fn run_expl(ops: &[XOp], max_pairs: usize, printers: bool) -> Result<ExplOut, String> {
+    type L = Main;
     let mut eg: EGraph<L> = EGraph::default();
+    let mut rules_used: Vec<usize> = Vec::new();
     let mut tracked: Vec<AppliedId> = Vec::new();
     let mut terms: Vec<ATerm> = Vec::new();
     let mut asserted = Vec::new();
     let mut tags = Vec::new();
     for (k, op) in ops.iter().enumerate() {
+        let op = match op {
+            XOp::Rw(i) => {
+                let (name, l, r) = XRULES[*i % XRULES.len()];
+                let rw: Rewrite<L> = Rewrite::new(name, l, r);
+                if eg.total_number_of_nodes() < 150 {
+                    if let Err(e) = guarded(|| apply_rewrites(&mut eg, &[rw])) {
+                        return Err(format!("op{k}:apply_rewrites {e}"));
+                    }
+                    if !rules_used.contains(&(*i % XRULES.len())) {
+                        rules_used.push(*i % XRULES.len());
+                    }
+                }
+                continue;
+            }
+            XOp::Base(b) => b,
+        };
         match op {
             Op::Add(t) => {
                 let re = to_recexpr::<L>(t);
@@ -157,17 +232,30 @@ pub fn run_expl<L: HLang>(ops: &[Op], max_pairs: usize, printers: bool) -> Resul
     }
     let expected = format!("nodes:ok|roots:{}", "1".repeat(roots.len()));
     let max_nodes = ex.nodes.len();
-    Ok(ExplOut { asserted, nodes: ex.nodes, roots, expected, max_nodes, tags })
+    // the rules that were applied, as terms with pattern-variable leaves (for the checker's rule-instance judgement)
+    let rules: Vec<String> = rules_used
+        .iter()
+        .map(|i| {
+            let (name, l, r) = XRULES[*i];
+            let lp = Pattern::<Main>::parse(l).unwrap();
+            let rp = Pattern::<Main>::parse(r).unwrap();
+            format!("{name}={}~{}", enc_term(&pat_to_aterm(&lp)), enc_term(&pat_to_aterm(&rp)))
+        })
+        .collect();
+    if !rules.is_empty() {
+        tags.push("t:rule-applications".into());
+    }
+    Ok(ExplOut { asserted, nodes: ex.nodes, roots, expected, max_nodes, tags, rules })
 }
 
 #[cfg(feature = "explanations")]
-pub fn exec_expl(ops: Vec<Op>, stream: &str, max_pairs: usize) -> Case {
+pub fn exec_expl(ops: Vec<XOp>, stream: &str, max_pairs: usize) -> Case {
     let ops2 = ops.clone();
     let r = in_fresh_thread(move || {
         intern_names();
-        run_expl::<Main>(&ops2, max_pairs, true)
+        run_expl(&ops2, max_pairs, true)
     });
-    let head = format!("expl main;{}", enc_ops(&ops));
+    let head = format!("expl main;{}", enc_xops(&ops));
     let mut tags = vec![format!("s:{stream}")];
     match r {
         Ok(Ok(o)) => {
@@ -179,7 +267,7 @@ pub fn exec_expl(ops: Vec<Op>, stream: &str, max_pairs: usize) -> Case {
                     tags.push(format!("r:{rule}"));
                 }
             }
-            let line = format!("{head}|{}|{}|{}", o.asserted.join("#"), o.nodes.join("#"), o.roots.join("#"));
+            let line = format!("{head}|{}|{}|{}|{}", o.asserted.join("#"), o.nodes.join("#"), o.roots.join("#"), o.rules.join("#"));
             Case { line, impl_out: o.expected, nontrivial: !o.roots.is_empty(), tags }
         }
         Ok(Err(e)) => {
@@ -315,12 +403,68 @@ fn gen_congr(rng: &mut crate::rng::Rng) -> Vec<Op> {
     ops
 }
 
+/// rule stream: pairs of terms that differ by one application of a pool rule (at the root or inside a context, also under
+/// a binder), inserted syntactically, possibly with an extra justified union, then the rule is applied
+#[cfg(feature = "explanations")]
+fn gen_rules(rng: &mut crate::rng::Rng) -> Vec<XOp> {
+    use crate::terms::CField as F;
+    let leaf = |v: usize, sl: &[u32]| ATerm { v, fields: sl.iter().map(|s| F::Slot(*s)).collect(), children: vec![] };
+    let var = |c: u32| leaf(2, &[c]);
+    let un = |v: usize, a: ATerm| ATerm { v, fields: vec![F::App], children: vec![a] };
+    let bin = |v: usize, a: ATerm, b: ATerm| ATerm { v, fields: vec![F::App, F::App], children: vec![a, b] };
+    let bind = |v: usize, x: u32, a: ATerm| ATerm { v, fields: vec![F::Bind(x, Box::new(F::App))], children: vec![a] };
+    let atoms: Vec<ATerm> = vec![var(4), var(8), var(2), leaf(7, &[4, 8]), leaf(10, &[4]), un(13, var(8)), bin(5, var(4), var(2))];
+    let pick = |rng: &mut crate::rng::Rng| atoms[rng.below(atoms.len())].clone();
+    let (a, b, c) = (pick(rng), pick(rng), pick(rng));
+    let (bx, by) = (BINDERS[0], BINDERS[1]);
+    let r = rng.below(XRULES.len());
+    let (t, t2): (ATerm, ATerm) = match r {
+        0 => (bin(4, a.clone(), b.clone()), bin(4, b.clone(), a.clone())),
+        1 => (bin(5, a.clone(), b.clone()), bin(5, b.clone(), a.clone())),
+        2 => (bin(14, a.clone(), b.clone()), bin(14, b.clone(), a.clone())),
+        3 => (un(13, a.clone()), bin(14, a.clone(), a.clone())),
+        4 => (bind(0, bx, bin(4, var(bx), a.clone())), bind(0, bx, un(13, bin(4, var(bx), a.clone())))),
+        5 => (bind(6, bx, bind(6, by, bin(5, var(bx), bin(4, var(by), a.clone())))), bind(6, by, bind(6, bx, bin(5, var(bx), bin(4, var(by), a.clone()))))),
+        6 => (leaf(7, &[4, 8]), leaf(7, &[8, 4])),
+        _ => (bin(4, bin(4, a.clone(), b.clone()), c.clone()), bin(4, a.clone(), bin(4, b.clone(), c.clone()))),
+    };
+    // optionally inside a context (congruence above the rule leaf), also under a binder
+    let ctx = rng.below(4);
+    let wrap = |u: ATerm| -> ATerm {
+        match ctx {
+            0 => u,
+            1 => un(13, u),
+            2 => bin(14, u, var(12)),
+            _ => bind(0, BINDERS[2], bin(4, u, var(BINDERS[2]))),
+        }
+    };
+    let mut ops: Vec<XOp> = vec![XOp::Base(Op::Add(wrap(t.clone()))), XOp::Base(Op::Add(wrap(t2.clone())))];
+    if rng.chance(1, 2) {
+        // an unrelated term unioned with the left one: the explanation then mixes asserted and rule leaves
+        ops.push(XOp::Base(Op::Add(pick(rng))));
+        ops.push(XOp::Base(Op::Union(0, 2)));
+    }
+    ops.push(XOp::Rw(r));
+    if rng.chance(1, 3) {
+        ops.push(XOp::Rw(rng.below(XRULES.len())));
+    }
+    ops.push(XOp::Base(Op::Query));
+    ops
+}
+
 #[cfg(feature = "explanations")]
 pub fn run(ctx: &mut Ctx) {
     let max_pairs = ctx.param("max_pairs", 6);
     for _ in 0..ctx.count {
         let mut rng = ctx.rng.fork();
-        let (ops, stream) = if rng.chance(1, 4) { (gen_congr(&mut rng), "congr") } else { gen_history(&mut rng) };
+        let (ops, stream): (Vec<XOp>, &str) = match rng.below(8) {
+            0 | 1 => (gen_congr(&mut rng).into_iter().map(XOp::Base).collect(), "congr"),
+            2 | 3 => (gen_rules(&mut rng), "rules"),
+            _ => {
+                let (o, st) = gen_history(&mut rng);
+                (o.into_iter().map(XOp::Base).collect(), st)
+            }
+        };
         ctx.emit(exec_expl(ops, stream, max_pairs));
     }
 }
@@ -329,7 +473,7 @@ pub fn run(ctx: &mut Ctx) {
 pub fn replay(body: &str) -> Case {
     let body = body.split('|').next().unwrap_or("");
     let body = body.strip_prefix("main;").unwrap_or(body);
-    exec_expl(parse_ops(body), "replay", 6)
+    exec_expl(parse_xops(body), "replay", 6)
 }
 
 #[cfg(not(feature = "explanations"))]
